@@ -7,6 +7,7 @@ pub mod flt;
 pub mod fmt_table;
 pub mod fmtspec;
 pub mod mp;
+pub mod lit;
 
 pub use big::Big;
 pub use layout::{IntK, INTS, L, NLAY};
